@@ -389,4 +389,177 @@ theorem ofSelectors_count (sels : List SelList) :
       simp only [List.foldl_cons]
       exact ih _ _ (addSelector_count k s ast h)
   exact this sels {} 0 (by simp [listSize])
+
+/-! ## from trie paths to addresses and back -/
+
+/-- a forward path, reversed (innermost step first) -/
+def revPath (path : List (Predicate × Comb)) : List (Comb × Predicate) :=
+  (path.map fun x => (x.2, x.1)).reverse
+
+/-- a reversed path, forward -/
+def fwdPath (σ : List (Comb × Predicate)) : List (Predicate × Comb) :=
+  (σ.map fun x => (x.2, x.1)).reverse
+
+theorem fwdPath_revPath (path : List (Predicate × Comb)) : fwdPath (revPath path) = path := by
+  simp [fwdPath, revPath, List.map_reverse, Function.comp_def]
+
+theorem revPath_fwdPath (σ : List (Comb × Predicate)) : revPath (fwdPath σ) = σ := by
+  simp [fwdPath, revPath, List.map_reverse, Function.comp_def]
+
+theorem hasF_mono {B B' : List AstNode} (h : ∀ n ∈ B, n ∈ B') (π l i) : HasF B π l i → HasF B' π l i := by
+  cases π with
+  | nil => rintro ⟨n, hn, hq⟩; exact ⟨n, h n hn, hq⟩
+  | cons x rest => obtain ⟨p, c⟩ := x; rintro ⟨n, hn, hq⟩; exact ⟨n, h n hn, hq⟩
+
+section Bridge
+variable {instrs : List Instruction} {root : List AstNode} {es : Nat}
+
+theorem hasF_to_at (hroot : ListCompiled instrs root es) : ∀ (path : List (Predicate × Comb)) (B : List AstNode)
+    (σ : List (Comb × Predicate)) (s : Nat),
+    (∀ k n, B[k]? = some n → At instrs root es σ n (s + k)) → ∀ last i, HasF B path last i →
+    ∃ n a, At instrs root es (revPath path ++ σ) n a ∧ n.predicate = last ∧ i ∈ n.matchIds := by
+  intro path
+  induction path with
+  | nil =>
+    intro B σ s hB last i h
+    obtain ⟨n, hn, hp, hi⟩ := h
+    obtain ⟨k, hk⟩ := List.getElem?_of_mem hn
+    exact ⟨n, s + k, by simpa [revPath] using hB k n hk, hp, hi⟩
+  | cons x rest ih =>
+    obtain ⟨p, c⟩ := x
+    intro B σ s hB last i h
+    obtain ⟨n, hn, hp, hrest⟩ := h
+    obtain ⟨k, hk⟩ := List.getElem?_of_mem hn
+    have hat := hB k n hk
+    have hcomp := hat.compiled hroot
+    obtain ⟨j, hj, hi0⟩ := hcomp.instr
+    have hσ : revPath ((p, c) :: rest) ++ σ = revPath rest ++ (c, p) :: σ := by
+      simp [revPath]
+    rw [hσ]
+    cases c with
+    | child =>
+      rcases hcomp.children hi0 with ⟨hnil, _⟩ | ⟨_, s', hs', _⟩
+      · simp only [AstNode.next, hnil] at hrest; exact (hasF_nil_block _ _ _ hrest).elim
+      · apply ih n.children ((.child, p) :: σ) s' _ last i hrest
+        intro k' n' hk'
+        have := At.child σ n (s + k) _ ⟨s', s' + n.children.length⟩ k' n' hat hi0 hs' hk'
+        rw [hp] at this; exact this
+    | descendant =>
+      rcases hcomp.descendants hi0 with ⟨hnil, _⟩ | ⟨_, s', hs', _⟩
+      · simp only [AstNode.next, hnil] at hrest; exact (hasF_nil_block _ _ _ hrest).elim
+      · apply ih n.descendants ((.descendant, p) :: σ) s' _ last i hrest
+        intro k' n' hk'
+        have := At.desc σ n (s + k) _ ⟨s', s' + n.descendants.length⟩ k' n' hat hi0 hs' hk'
+        rw [hp] at this; exact this
+
+theorem at_to_hasF : ∀ {σ n a}, At instrs root es σ n a → ∀ path last i, HasF [n] path last i →
+    HasF root (fwdPath σ ++ path) last i := by
+  intro σ n a h
+  induction h with
+  | root k n hk =>
+    intro path last i h
+    simp only [fwdPath, List.map_nil, List.reverse_nil, List.nil_append]
+    exact hasF_mono (by intro x hx; simp at hx; subst hx; exact List.mem_of_getElem? hk) _ _ _ h
+  | child σ m am i0 r k n _ _ _ hk ih =>
+    intro path last i h
+    have h1 : HasF m.children path last i :=
+      hasF_mono (by intro x hx; simp at hx; subst hx; exact List.mem_of_getElem? hk) _ _ _ h
+    have h2 : HasF [m] ((m.predicate, .child) :: path) last i := ⟨m, by simp, rfl, h1⟩
+    have := ih _ last i h2
+    simpa [fwdPath] using this
+  | desc σ m am i0 r k n _ _ _ hk ih =>
+    intro path last i h
+    have h1 : HasF m.descendants path last i :=
+      hasF_mono (by intro x hx; simp at hx; subst hx; exact List.mem_of_getElem? hk) _ _ _ h
+    have h2 : HasF [m] ((m.predicate, .descendant) :: path) last i := ⟨m, by simp, rfl, h1⟩
+    have := ih _ last i h2
+    simpa [fwdPath] using this
+
+/-- the nodes the program reaches by a path carry exactly the ids the trie has at that path -/
+theorem at_iff_hasF (hroot : ListCompiled instrs root es) (σ : List (Comb × Predicate)) (last : Predicate) (i : Nat) :
+    (∃ n a, At instrs root es σ n a ∧ n.predicate = last ∧ i ∈ n.matchIds) ↔
+      HasF root (fwdPath σ) last i := by
+  constructor
+  · rintro ⟨n, a, hat, hp, hi⟩
+    have := at_to_hasF hat [] last i ⟨n, by simp, hp, hi⟩
+    simpa using this
+  · intro h
+    have := hasF_to_at hroot (fwdPath σ) root [] es (fun k n hk => At.root k n hk) last i h
+    simpa [revPath_fwdPath] using this
+end Bridge
+
+/-! ## complex selectors against predicate paths -/
+
+def complexOk (cx : Complex) : Bool := compoundOk cx.head && cx.tail.all fun x => compoundOk x.2
+
+/-- every `:not()` argument in the selector set is a single plain simple selector -/
+def selsOk (sels : List SelList) : Bool := sels.all fun sl => sl.all complexOk
+
+def predOfStep (x : Comb × Compound) : Comb × Predicate := (x.1, Predicate.ofCompound x.2)
+
+theorem pathOfTail_revTail : ∀ (tail : List (Comb × Compound)) (cur : Compound) (acc : List (Comb × Compound)),
+    (revPath (pathOfTail (Predicate.ofCompound cur) tail).1 ++ acc.map predOfStep,
+      (pathOfTail (Predicate.ofCompound cur) tail).2) =
+    ((revTail cur acc tail).2.map predOfStep, Predicate.ofCompound (revTail cur acc tail).1) := by
+  intro tail
+  induction tail with
+  | nil => intro cur acc; simp [pathOfTail, revTail, revPath]
+  | cons x rest ih =>
+    obtain ⟨k, cp⟩ := x
+    intro cur acc
+    simp only [pathOfTail, revTail]
+    rw [← ih cp ((k, cur) :: acc)]
+    simp [revPath, predOfStep]
+
+theorem revTail_ok : ∀ (tail : List (Comb × Compound)) (cur : Compound) (acc : List (Comb × Compound)),
+    compoundOk cur = true → (acc.all fun x => compoundOk x.2) = true → (tail.all fun x => compoundOk x.2) = true →
+    compoundOk (revTail cur acc tail).1 = true ∧ ((revTail cur acc tail).2.all fun x => compoundOk x.2) = true := by
+  intro tail
+  induction tail with
+  | nil => intro cur acc h1 h2 _; exact ⟨h1, h2⟩
+  | cons x rest ih =>
+    obtain ⟨k, cp⟩ := x
+    intro cur acc h1 h2 h3
+    simp only [List.all_cons, Bool.and_eq_true] at h3
+    simp only [revTail]
+    exact ih cp ((k, cur) :: acc) h3.1 (by simp [h1, h2]) h3.2
+
+theorem anyAncestor_congr {f g : Elem → List Elem → Bool} (h : ∀ e anc, f e anc = g e anc) (anc : List Elem) :
+    anyAncestor f anc = anyAncestor g anc := by
+  induction anc with
+  | nil => rfl
+  | cons p anc ih => simp [anyAncestor, h, ih]
+
+theorem matchesRev_eq_pred : ∀ (σc : List (Comb × Compound)) (c : Compound) (e : Elem) (anc : List Elem),
+    compoundOk c = true → (σc.all fun x => compoundOk x.2) = true →
+    matchesRev codeLeaf σc c e anc = predMatchesRev (σc.map predOfStep) (Predicate.ofCompound c) e anc := by
+  intro σc
+  induction σc with
+  | nil => intro c e anc hc _; simp [matchesRev, predMatchesRev, predB_ofCompound c hc]
+  | cons x rest ih =>
+    obtain ⟨k, c'⟩ := x
+    intro c e anc hc hσ
+    simp only [List.all_cons, Bool.and_eq_true] at hσ
+    simp only [matchesRev, List.map_cons, predOfStep, predMatchesRev, predB_ofCompound c hc]
+    congr 1
+    cases k with
+    | child =>
+      cases anc with
+      | nil => rfl
+      | cons q anc' => exact ih c' q anc' hσ.1 hσ.2
+    | descendant =>
+      exact anyAncestor_congr (fun q anc' => ih c' q anc' hσ.1 hσ.2) anc
+
+/-- CSS matching of a complex selector (leaves as coded) = predicate-level matching of its trie path. -/
+theorem matchesComplex_eq_pred (cx : Complex) (hok : complexOk cx = true) (e : Elem) (anc : List Elem) :
+    matchesComplex codeLeaf cx e anc =
+      predMatchesRev (revPath (complexToPath cx).1) (complexToPath cx).2 e anc := by
+  unfold complexOk at hok
+  simp only [Bool.and_eq_true] at hok
+  unfold matchesComplex complexToPath
+  have h := pathOfTail_revTail cx.tail cx.head []
+  simp only [List.map_nil, List.append_nil, Prod.mk.injEq] at h
+  obtain ⟨ok1, ok2⟩ := revTail_ok cx.tail cx.head [] hok.1 (by simp) hok.2
+  rw [h.1, h.2]
+  exact matchesRev_eq_pred _ _ e anc ok1 ok2
 end LolHtml.SelVM
